@@ -34,7 +34,9 @@ MatrixRoutines == <<"qrAlgorithm", "qrAlgorithmSymmetric", "eigensystem", "eigen
                     "msqrt", "msqrtInv", "hessenbergReduction", "householderBidiagonalization",
                     "householderTridiagonalization", "gramSchmidt", "matrixInverse", "cholesky", "determinant">>
 OptRoutines    == <<"lineSearch", "rprop", "gradientDescent", "newtonRoot", "newtonCrit", "newtonMin",
-                    "bfgs", "adam", "saga">>
+                    "bfgs", "adam", "saga", "rpropGradient", "adamGradient">>
+\* rpropGradient / adamGradient: the explicit-gradient entry points rprop.RunGradient and
+\* adam.RunGradient (DenseGradientF), separate implementations of the same loops
 
 Cube(n) == n * n * n
 (* iterative O(n^3)-per-sweep routines get a larger polynomial coefficient *)
@@ -114,9 +116,13 @@ ObjClasses == { <<"nan", 0>>, <<"nan", 1>>, <<"nan", 2>>, <<"nan", 5>>,
                 <<"posinf", 0>>, <<"posinf", 1>>, <<"posinf", 3>>,
                 <<"error", 0>>, <<"error", 1>>, <<"error", 3>>,
                 <<"constraints_never", 0>>, <<"constraints_only_start", 0>>,
+                \* the start point lies ON the boundary of the feasible half-space x_i >= x0_i and
+                \* every descent step leaves it, while the gradient is not zero
+                <<"constraints_halfspace", 0>>,
                 <<"zero_gradient", 0>> }
-WithConstraints == {"lineSearch", "rprop", "newtonRoot", "newtonCrit", "newtonMin", "bfgs", "adam"}
-Applicable(o) == IF o[1] \in {"constraints_never", "constraints_only_start"}
+WithConstraints == {"lineSearch", "rprop", "newtonRoot", "newtonCrit", "newtonMin", "bfgs", "adam",
+                    "rpropGradient", "adamGradient"}
+Applicable(o) == IF o[1] \in {"constraints_never", "constraints_only_start", "constraints_halfspace"}
                  THEN SelectSeq(OptRoutines, LAMBDA r : r \in WithConstraints) ELSE OptRoutines
 ObjCase(o, n) == [kind |-> "objective", class |-> o[1], n |-> n, m |-> <<>>,
                   obj |-> o[1], k |-> o[2], calls |-> Calls(Applicable(o), n)]
@@ -183,7 +189,8 @@ PolyCases ==
 (* updated AND the reset matrix.  m = <<x0n, x0d, hn, hd>>.                *)
 DomainStarts   == { <<3, 1>>, <<1, 1>>, <<3, 4>>, <<10, 1>> }
 DomainHessians == { <<5, 2>>, <<4, 1>>, <<10, 1>>, <<1, 2>> }
-DomainRoutines == <<"lineSearch", "rprop", "gradientDescent", "newtonRoot", "newtonCrit", "newtonMin", "bfgs", "adam">>
+DomainRoutines == <<"lineSearch", "rprop", "gradientDescent", "newtonRoot", "newtonCrit", "newtonMin", "bfgs", "adam",
+                    "rpropGradient", "adamGradient">>
 DomainCases ==
      { [kind |-> "objective", class |-> cl, n |-> n, m |-> <<x[1], x[2], 1, 1>>, obj |-> cl, k |-> 0,
         calls |-> Calls(DomainRoutines, n)] : cl \in {"domain_error", "domain_nan"}, n \in 1..2, x \in DomainStarts }
